@@ -15,6 +15,8 @@ TRUSTED = ['clang 14 AST + constant evaluation', 'bsfacts', 'bsv/dtab.py interpr
 
 def run(prog, rep):
     M.check_reader_twins(prog, rep)
+    rep.rule('R10.1s', 'string and stream SkipValueImpl skip the same extent and the same number of nested values for every first byte', floor=256)
+    M.check_skip_twins(prog, rep, 'R10.1s')
     from rules import c06
     from rules import msgpack_writer_tables as W
     rep.rule('R10.2', 'memory and stream MsgPack writers have equal emission tables for every overload and every value/length cell', floor=240)
